@@ -1049,13 +1049,22 @@ package sio
 //@   ensures present ==> rem == 1 [C06.nsp.remove.listed]
 
 // The socket's close body runs at most once per socket (sync.Once) ...
+// ... and the guard is used only by a close of a socket that HAS connected: a close that comes too early (the socket is
+// listed but not connected yet) returns without touching it, so the socket can still be disconnected once it has.
 //@ func (*serverSocket).onClose
 //@   opt safety off
 //@   ghost once int = 0
+//@   ghost asked int = 0
+//@   ghost conn bool = false
+//@   callsite (*serverSocket).Connected skip
+//@     update asked = asked + 1
+//@     updateafter conn = result
 //@   callsite Do
 //@     requires isfield(recv, s, closeOnce) [C06.sio.once.guard]
+//@     requires asked == 1 && conn [C06.sio.once.not.used.up.by.an.early.close]
 //@     update once = once + 1
-//@   ensures once == 1 [C06.sio.once]
+//@   ensures conn ==> once == 1 [C06.sio.once]
+//@   ensures !conn ==> once == 0 [C06.sio.early.close.leaves.the.guard]
 
 // ... and both handler kinds are handed the reason of this close.
 //@ func (*serverSocket).onClose$1$1$1
